@@ -25,9 +25,9 @@ def parse_playback(out):
     return res
 
 
-def playback(cmd_prefix, full, env, timeout):
+def playback(cmd_prefix, full, env, timeout, tail=()):
     """cmd_prefix: the cargo kani command up to (not including) harness selection"""
-    cmd = cmd_prefix + ['-Z', 'concrete-playback', '--concrete-playback=print', '--harness', full, '--exact']
+    cmd = [x for x in cmd_prefix if x != '--exact'] + ['-Z', 'concrete-playback', '--concrete-playback=print', '--harness', full, '--exact'] + list(tail)
     rc, out, err, wall = sh(cmd, cwd=REPO, env=env, timeout=timeout, mem_gb=float(os.environ.get('VERIF_MEM_GB', '28')))
     return parse_playback(out + '\n' + err), wall
 
